@@ -591,8 +591,14 @@ func genScenario(t *simkit.Tape) scenario {
 	seq := 0
 	a := genSchema(t, &seq)
 	sc := scenario{a: a, b: edit(t, &seq, a), files: map[string]string{}}
+	version := 0
 	for i, n := 0, t.Range("dir-files", 2, 6); i < n; i++ {
-		sc.files[fmt.Sprintf("2024010100%04d_f%d.sql", t.Draw("version", 9999), i)] = fmt.Sprintf("CREATE TABLE x%d (id int);\n", i)
+		// Some files share their version prefix (two branches merged on the same day): only the
+		// rest of the name orders them.
+		if i == 0 || !t.Chance("same-version-as-previous", 1, 3) {
+			version = t.Draw("version", 9999)
+		}
+		sc.files[fmt.Sprintf("2024010100%04d_%c%d.sql", version, 'a'+rune(t.Draw("name-letter", 6)), i)] = fmt.Sprintf("CREATE TABLE x%d (id int);\n", i)
 	}
 	return sc
 }
